@@ -13,11 +13,24 @@
     defines globals (and, for a third, closure variables) named like every helper: no name the converter
     introduced (new locals / cell variables / nested function names of the converted code object compared with
     the original's, and every name the Namer handed out) may be a key of the function's namespace
+ oracle (enclosing scopes): the converted entity is generated INSIDE wrapper functions (transpiler._wrap_into_factory:
+    def outer(): def inner(ag__): def entity(...)); a name bound by a scope that lexically encloses the entity
+    captures every read of that name which the user code resolves outside the function.  The wrapper vocabulary is
+    DISCOVERED on the tree under test (names bound by the enclosing scopes of a probe conversion in a clean module,
+    every root requested with an empty reserved set, the resolved roots of the translated call sites) and then used in
+    every role: global read directly / in a nested def + comprehension / in a lambda / in a loop with early return /
+    in a callee converted recursively / declared global and written; closure variable; local, parameter, loop target,
+    except-as name, comprehension target, lambda parameter, nested function name.  Judged: conversion succeeds,
+    original vs converted agree, no callee is silently left unconverted, and no scope enclosing the entity binds a
+    name the function resolves outside itself (stream (c): nor a key of its namespace)
 """
 import ast
+import dis
 import os
 import random
 import re
+import symtable
+import types
 
 from lib import vlib, convrun
 from gen import progs
@@ -126,6 +139,284 @@ def vis_check(f, g, handed_names):
     clash = sorted(set(handed_names) & ns)
     if clash:
         return 'the Namer handed out %r although the namespace of the function has a variable of that name' % clash[0]
+    wc = wrapper_clash(f, g, ns)
+    if wc:
+        return wc[1]
+    return None
+
+
+# ---- enclosing scopes: the wrappers the transpiler generates around the converted entity ---------------------
+# read-only uses of {n} that are resolved OUTSIDE f: {n} is a module global (a function) or a variable of an
+# enclosing function (closure role: the same text wrapped by enclose())
+OUTSIDE_TEMPLATES = [
+    ('read directly in both branches',
+     'def f(a, b, c):\n    if D(1):\n        y = T(2, {n}(1))\n    else:\n        y = T(3, {n}())\n    return T(4, y)\n'),
+    ('read two levels down (nested def + comprehension)',
+     'def f(a, b, c):\n    def lev1(p):\n        return T(1, p, [T(2, {n}(k)) for k in L(3)])\n    if D(4):\n        y = lev1(a)\n    else:\n        y = T(5)\n'
+     '    return T(6, y)\n'),
+    ('read in a lambda called from a loop',
+     'def f(a, b, c):\n    h = lambda q: T(1, {n}(q))\n    while D(2):\n        a = T(3, h(a))\n        if D(4):\n            break\n    return T(5, a)\n'),
+    ('read in a for loop with an early return, and as a bare name',
+     'def f(a, b, c):\n    for i in L(1):\n        if D(2):\n            return T(3, {n}(i))\n        c = T(4, c, i)\n    return T(5, c, {n} is None)\n'),
+]
+# {n} is a module global only
+GLOBAL_TEMPLATES = [
+    ('read by a callee that is converted recursively',
+     'def f(a, b, c):\n    if D(1):\n        return T(2, RD_{n}(a))\n    return T(3, RD_{n}(b))\n'),
+    ('declared global and written',
+     'def f(a, b, c):\n    global {n}\n    if D(1):\n        {n} = T(2)\n    return T(3, {n} if isinstance({n}, int) else 0)\n'),
+]
+# {n} is bound inside f
+INSIDE_TEMPLATES = [
+    ('name of a nested function',
+     'def f(a, b, c):\n    def {n}(p):\n        return T(1, p)\n    if D(2):\n        return T(3, {n}(a))\n    return T(4, {n}(b))\n'),
+    ('parameter rewritten in a loop',
+     'def f(a, {n}, c):\n    while D(1):\n        {n} = T(2, {n})\n        if D(3):\n            continue\n        a = T(4, a)\n    return T(5, {n}, a)\n'),
+    ('for-loop target',
+     'def f(a, b, c):\n    for {n} in L(1):\n        if D(2):\n            break\n        a = T(3, a, {n})\n    return T(4, a)\n'),
+    ('assigned only',
+     'def f(a, b, c):\n    for i in L(1):\n        {n} = T(2, i)\n        if D(3):\n            return T(4, i)\n    return T(5)\n'),
+]
+
+
+def rd_helper(n):
+    """module-level function that reads the global n from inside a loop (converted when a converted f calls it)"""
+    return 'def RD_%s(x):\n    while D(950):\n        x = T(951, x)\n    return T(952, x, %s(x))\n' % (n, n)
+
+
+def global_def(n, k):
+    return 'def %s(q=0):\n    return T(%d, q)\n' % (n, 960 + k)
+
+
+def enclose(src, i, n, k):
+    """program i with n as a variable of an enclosing function (n is a free variable of f)"""
+    head, body = src.split('\n', 1)
+    return 'def mk%d():\n    %s = lambda q=0: T(%d, q)\n' % (i, n, 980 + k) + \
+        ''.join('    ' + l + '\n' for l in (head + '\n' + body).rstrip('\n').split('\n')) + \
+        '    return f%d\n\n\nf%d = mk%d()\n' % (i, i, i)
+
+
+def entity_chain(g):
+    """code objects of the function scopes of the generated module that lexically enclose the converted entity g,
+    outermost first, and the names bound at the top level of that module; (None, []) when g carries no module"""
+    mod = getattr(g, 'ag_module', None)
+    target = getattr(g, '__code__', None)
+    if mod is None or target is None:
+        return None, []
+
+    def find(code, path):
+        for k in code.co_consts:
+            if isinstance(k, types.CodeType):
+                if k is target or k == target:
+                    return path + [code]
+                r = find(k, path + [code])
+                if r:
+                    return r
+        return None
+    top = sorted(k for k in vars(mod) if not (k.startswith('__') and k.endswith('__')))
+    for k in top:
+        v = vars(mod)[k]
+        if isinstance(v, types.FunctionType):
+            r = find(v.__code__, [])
+            if r:
+                return r, top
+    return None, top
+
+
+def enclosing_bound(g):
+    """{name: the wrapper scope that binds it} for the scopes that lexically enclose the converted entity"""
+    chain, _ = entity_chain(g)
+    out = {}
+    for code in chain or []:
+        for nm in list(code.co_varnames) + list(code.co_cellvars):
+            out.setdefault(nm, code.co_name)
+    return out
+
+
+def entity_names(g):
+    """the name(s) the innermost wrapper binds besides its parameters: the entity itself (derived from the user's own
+    function name, e.g. ag__f / ag__lam)"""
+    chain, _ = entity_chain(g)
+    if not chain:
+        return set()
+    inner = chain[-1]
+    nargs = inner.co_argcount + inner.co_kwonlyargcount
+    return set(inner.co_varnames[nargs:]) | (set(inner.co_cellvars) - set(inner.co_varnames[:nargs]))
+
+
+def resolved_outside(code):
+    """names the code (and everything nested in it) resolves in the module globals / builtins"""
+    s = set()
+    for ins in dis.get_instructions(code):
+        if ins.opname in ('LOAD_GLOBAL', 'LOAD_NAME', 'STORE_GLOBAL', 'DELETE_GLOBAL', 'STORE_NAME', 'DELETE_NAME'):
+            s.add(ins.argval)
+    for k in code.co_consts:
+        if isinstance(k, types.CodeType):
+            s |= resolved_outside(k)
+    return s
+
+
+def implicit_globals(src):
+    """names that some function / lambda / comprehension of the source text resolves in the module globals WITHOUT a
+    `global` declaration: the reads an enclosing binding would capture (a declared global is immune)"""
+    out = set()
+
+    def walk(tab, top):
+        if not top and tab.get_type() == 'function':
+            for sym in tab.get_symbols():
+                if sym.is_global() and not sym.is_declared_global():
+                    out.add(sym.get_name())
+        for ch in tab.get_children():
+            walk(ch, False)
+    walk(symtable.symtable(src, '<program>', 'exec'), True)
+    return out
+
+
+def wrapper_clash(f, g, visible=(), src=None):
+    """None, or (name, description): a scope that encloses the converted entity binds a name that the user function
+    resolves outside itself (or, with `visible`, a name of its namespace).  The dummies that re-create the function's
+    own closure variables are its own names.  With the source text, names the function only uses under a `global`
+    declaration are not counted as captured."""
+    bound = enclosing_bound(g)
+    own = set(f.__code__.co_freevars)
+    outside = resolved_outside(f.__code__)
+    if src is not None:
+        try:
+            outside &= implicit_globals(src)
+        except SyntaxError:
+            pass
+    for nm in sorted(bound):
+        if nm in own:
+            continue
+        if nm in outside:
+            return nm, ('the generated wrapper scope %r, which lexically encloses the converted code, binds %r: the function '
+                        'reads that name as a global, so the read is captured' % (bound[nm], nm))
+        if nm in visible:
+            return nm, ('the generated wrapper scope %r, which lexically encloses the converted code, binds %r although a module '
+                        'global / closure variable of that name is visible to the user function' % (bound[nm], nm))
+    return None
+
+
+def wrapper_vocabulary(requests):
+    """Names of the scaffolding the transpiler puts around a converted entity ON THIS TREE, and the prefix of the name
+    of the entity: (sorted names, prefix).  Sources: the scopes enclosing the entity of probe conversions in a clean
+    module (numbers stripped), every root requested there with an EMPTY reserved set, the resolved roots of the
+    translated new_symbol call sites that pass `()`.  The fixed alias (known finding) and the user's own names are
+    not part of it."""
+    names = set()
+    prefix = ''
+    probes = ['def f(a, b, c):\n    if D(1):\n        a = T(2, a)\n    return T(3, a)\n',
+              'f = lambda a, b, c: T(1, a)\n']
+    try:
+        mod = convrun.load_module(probes, c01.PRELUDE)
+        for i in range(len(probes)):
+            f = getattr(mod, 'f%d' % i)
+            del requests[:]
+            try:
+                g = c01.convert(f, True, None)
+            except Exception:  # noqa
+                continue
+            own = set(f.__code__.co_varnames) | set(f.__code__.co_freevars) | {f.__code__.co_name, 'ag__'}
+            enames = entity_names(g) | {g.__code__.co_name}
+            for ename in sorted(enames):
+                if f.__code__.co_name.isidentifier() and ename.endswith(f.__code__.co_name) and not prefix:
+                    prefix = ename[:-len(f.__code__.co_name)]
+            chain, top = entity_chain(g)
+            for nm in list(enclosing_bound(g)) + list(top):
+                if nm not in own and nm not in enames:
+                    names.add(nm)
+            for root, empty, res in requests:
+                if empty and res not in enames and root not in own:
+                    names.add(root)
+    except Exception:  # noqa
+        pass
+    try:
+        text = c11_names.translate(vlib.REPO)
+        for root, flag in re.findall(r"\"malt/(?!converters)[^\"]*\", \"'(\w+)'\", (true|false)", text.split('receivers_gen')[-1]):
+            names.add(root)
+    except c11_names.Untranslatable:
+        pass
+    if not names:
+        try:
+            import inspect
+            from malt.pyct import transpiler
+            for pn, pv in inspect.signature(transpiler._PythonFnFactory.create).parameters.items():
+                if pn.endswith('_name') and isinstance(pv.default, str):
+                    names.add(pv.default)
+        except Exception:  # noqa
+            pass
+    names = set(re.sub(r'_\d+$', '', n) for n in names if n.isidentifier())
+    return sorted(names), prefix
+
+
+def enclosing_programs(rnd, quick, wnames, prefix):
+    """[(role, name, module ('G' = the name is a module global / 'P' = it is not), source builder)]: the wrapper
+    vocabulary (with numbered variants, the name of the entity, and a few names of the body-level vocabulary for the
+    roles the other streams do not have) in every role"""
+    progs_ = []
+    numbered = [n + '_1' for n in wnames]
+    body = rnd.sample(['do_return', 'retval_', 'get_state', 'set_state', 'if_body', 'else_body', 'loop_body', 'loop_test',
+                       'itr', 'fscope', 'break_', 'continue_', 'vars_', 'lscope'], 3 if quick else 14)
+    for n in wnames + numbered + body + ['@entity']:
+        full = n in wnames or not quick
+        outs = OUTSIDE_TEMPLATES if full else rnd.sample(OUTSIDE_TEMPLATES, 2)
+        for role, t in outs:
+            progs_.append(('global ' + role, n, 'G', t, False))
+        for role, t in (outs if full else outs[:1]):
+            progs_.append(('closure variable ' + role, n, 'P', t, True))
+        if n != '@entity':
+            for role, t in GLOBAL_TEMPLATES:
+                progs_.append(('global ' + role, n, 'G', t, False))
+        if n in wnames or n in numbered:
+            ins = [(r_, t_) for r_, t_ in INSIDE_TEMPLATES] + [('template %d' % k, t_) for k, t_ in enumerate(TEMPLATES)]
+            for role, t in (ins if full else rnd.sample(ins, 4)):
+                progs_.append(('local: ' + role, n, 'P', t, False))
+    return progs_
+
+
+def enc_source(template, spec, i, closure, prefix):
+    """(source text of program i, the identifier under test)"""
+    n = (prefix + 'f%d' % i) if spec == '@entity' else spec
+    src = template.replace('{n}', n)
+    return (enclose(src, i, n, 0) if closure else src), n
+
+
+def enc_prelude(names):
+    return c01.PRELUDE + '\n' + '\n'.join(global_def(n, k % 19) + '\n' + rd_helper(n) for k, n in enumerate(names)) + '\n'
+
+
+def enc_judge(mod, f, src, idents, handed, requests, warned, vectors, extra_globals, run=None):
+    """None, or (what, decisions) for one program of the enclosing-scopes stream"""
+    del handed[:]
+    del requests[:]
+    del warned[:]
+    try:
+        g = c01.convert(f, True, None)
+    except Exception as e:  # noqa
+        return 'conversion failed with %s: %s' % (type(e).__name__, re.sub(r' at 0x[0-9a-f]+', '', str(e))[:200]), None
+    wc = wrapper_clash(f, g, (), src)
+    if wc:
+        return wc[1], None
+    # helpers of the body live INSIDE the function: they must differ from every identifier of it; the names bound by the
+    # wrapper scopes live outside it, where a binding of the function shadows them and only the names it resolves
+    # outside can be captured (wrapper_clash above)
+    outer_names = set(enclosing_bound(g)) | set(entity_chain(g)[1])
+    clash = [nm for nm, _ in handed if nm in idents and nm not in outer_names]
+    if clash:
+        return 'the converter generated the helper name %r although the user function uses that identifier' % clash[0], None
+    for dv in vectors:
+        a = convrun.run_one(mod, f, dv, False, extra_globals)
+        b = convrun.run_one(mod, g, dv, False, extra_globals)
+        if run is not None:
+            run.count()
+        d = convrun.describe_diff(a, b)
+        if d:
+            return d, dv
+        left = [w for w in warned if 'could not transform' in w]
+        if left:
+            cause = [l for l in left[0].splitlines() if l.startswith('Cause')]
+            return ('a function called by the converted code was silently left unconverted (%s; %s)' % (
+                re.sub(r' at 0x[0-9a-f]+', '', left[0].splitlines()[0])[:120], cause[0][:120] if cause else 'no cause given')), dv
     return None
 
 
@@ -165,6 +456,29 @@ def namer_cases(rnd, n):
     return cases
 
 
+def wrapper_cases(rnd, n, wnames, start):
+    """request sequences shaped like one conversion: the requests of the body (each with a reserved set) followed by the
+    requests for the wrapper names with the EMPTY reserved set, against a namespace that may hold those very names"""
+    from malt.pyct import naming, qual_names
+    body = ['if_body', 'else_body', 'loop_body', 'get_state', 'set_state', 'do_return', 'retval_', 'fscope']
+    pool = list(wnames) + [w + '_1' for w in wnames] + [w + '_2' for w in wnames] + body
+    cases = []
+    for i in range(n):
+        ns = rnd.sample(pool, rnd.randint(0, min(5, len(pool))))
+        namer = naming.Namer(set(ns))
+        reqs, outs = [], []
+        for _ in range(rnd.randint(0, 4)):
+            root = rnd.choice(body + list(wnames))
+            rs = rnd.sample(pool, rnd.randint(0, 3))
+            outs.append(namer.new_symbol(root, set(qual_names.QN(a) for a in rs)))
+            reqs.append((root, ['QSimple %s' % vlib.coq_str(a) for a in rs]))
+        for w in list(wnames) + ([rnd.choice(pool)] if pool else []):
+            outs.append(namer.new_symbol(w, ()))
+            reqs.append((w, []))
+        cases.append((start + i, ns, reqs, outs))
+    return cases
+
+
 def coq_strs(xs):
     return '[' + '; '.join(vlib.coq_str(x) for x in xs) + ']'
 
@@ -188,8 +502,27 @@ def check(run):
     if tie_ok:
         vlib.standard_proof_step(run, ['Names/NamerProofs.vo'])
     rnd = random.Random(run.seed * 31337 + 11)
+    from malt.pyct import naming
+    handed = []
+    requests = []      # (root, the reserved set is empty, result)
+    orig_new = naming.Namer.new_symbol
+
+    def spy(self, name_root, reserved_locals):
+        r = orig_new(self, name_root, reserved_locals)
+        handed.append((r, set(self.global_namespace)))
+        requests.append((name_root, not reserved_locals, r))
+        return r
+    # the wrapper vocabulary of this tree (own random streams: the draws of (a), (b) and (c) stay what they were)
+    rnd_e = random.Random(run.seed * 7919 + 1110)
+    naming.Namer.new_symbol = spy
+    try:
+        wnames, wprefix = wrapper_vocabulary(requests)
+    finally:
+        naming.Namer.new_symbol = orig_new
+        convrun.cleanup()
     # (a) namer correspondence
     cases = namer_cases(rnd, 300 if quick else 3000)
+    cases += wrapper_cases(rnd_e, 45 if quick else 450, wnames, len(cases))
     lines = []
     for i, ns, reqs, outs in cases:
         rq = '[' + '; '.join('(%s, [%s])' % (vlib.coq_str(r), '; '.join(res)) for r, res in reqs) + ']'
@@ -197,12 +530,12 @@ def check(run):
     corr_bad = None
     if tie_ok:
         bad = []
-        for k in range(0, len(lines), 300):
+        for k in range(0, len(lines), 400):
             body = ['From Coq Require Import String List Arith Bool.', 'Import ListNotations.',
                     'Require Import MV.Names.Namer.', 'Local Open Scope string_scope.',
                     'Definition list_string_beq (a b : list string) : bool := andb (Nat.eqb (length a) (length b)) (forallb (fun p => String.eqb (fst p) (snd p)) (combine a b)).',
                     'Definition cases : list (nat * list string * list (string * list qn) * list string) := [',
-                    ';\n'.join(lines[k:k + 300]), '].',
+                    ';\n'.join(lines[k:k + 400]), '].',
                     'Definition ok (c : nat * list string * list (string * list qn) * list string) : bool :=',
                     '  match c with (_, ns, reqs, outs) => match new_symbols ns [] reqs with Some (cs, _) => list_string_beq cs outs | None => false end end.',
                     'Eval vm_compute in map (fun c => match c with (i, _, _, _) => i end) (filter (fun c => negb (ok c)) cases).']
@@ -219,15 +552,8 @@ def check(run):
         run.count(len(cases))
         run.extra['namer_sequences'] = len(cases)
     # (b) programs over the converter vocabulary
-    from malt.pyct import naming
-    handed = []
-    orig_new = naming.Namer.new_symbol
-
-    def spy(self, name_root, reserved_locals):
-        r = orig_new(self, name_root, reserved_locals)
-        handed.append((r, set(self.global_namespace)))
-        return r
     failures = []
+    enc_failures = []
     vis_failures = []
     nprog = 70 if quick else 700
     srcs = []
@@ -287,6 +613,9 @@ def check(run):
             clash = [(nm) for nm, ns in handed if nm in idents]
             if clash:
                 failures.append(('the converter generated the helper name %r although the user function uses that identifier' % clash[0], src, None))
+            wc = wrapper_clash(f, g, (), src)
+            if wc and wc[0] != 'ag__':
+                failures.append((wc[1], src, None))
             for dv in ([cvecs[i]] if i < len(csrcs) else []) + c01.VECTORS[:6]:
                 a = convrun.run_one(mod, f, dv, False)
                 b = convrun.run_one(mod, g, dv, False)
@@ -305,6 +634,7 @@ def check(run):
         run.extra['programs'] = len(allsrc)
         # (c) visible names
         roots = helper_roots()
+        roots += [w for w in wnames if w not in roots]
         vsrcs = [t.replace('{n}', 'e1') for t in TEMPLATES]
         for it in range(24 if quick else 240):
             opts = progs.Opts(loop_else=False, reads='safe', names=list(VIS_PLAIN_NAMES), max_stmts=10 if it % 2 else 5,
@@ -331,6 +661,33 @@ def check(run):
                 vis_failures.append((what, sv, vclos[i]))
         run.extra['visible_name_programs'] = nvis
         run.extra['visible_name_roots'] = roots
+        # (d) enclosing scopes: the wrapper vocabulary of this tree in every role
+        from malt.utils import ag_logging
+        warned = []
+        orig_warning = ag_logging.warning
+        ag_logging.warning = lambda msg, *a, **k: warned.append((msg % a) if a else str(msg))
+        try:
+            eprogs = enclosing_programs(rnd_e, quick, wnames, wprefix)
+            for kind in ('G', 'P'):
+                part = [e for e in eprogs if e[2] == kind]
+                built = [enc_source(t, spec, i, clos, wprefix) for i, (_, spec, _, t, clos) in enumerate(part)]
+                gnames = sorted(set(n for _, n in built)) if kind == 'G' else []
+                prelude = enc_prelude(gnames) if kind == 'G' else c01.PRELUDE
+                mode = convrun.load_module([src for src, _ in built], prelude)
+                initial = dict((n, getattr(mode, n)) for n in gnames)
+                for i, ((role, spec, _, t, clos), (src, n)) in enumerate(zip(part, built)):
+                    f = getattr(mode, 'f%d' % i)
+                    tree = ast.parse(src)
+                    idents = set(x.id for x in ast.walk(tree) if isinstance(x, ast.Name)) | \
+                        set(a.arg for x in ast.walk(tree) if isinstance(x, ast.arguments) for a in x.args)
+                    r = enc_judge(mode, f, src, idents, handed, requests, warned, c01.VECTORS[:5], initial, run)
+                    run.nontriv('enclosing:' + src)
+                    if r:
+                        enc_failures.append((r[0], role, spec, t, clos, [n] if kind == 'G' else [], r[1], src))
+            run.extra['enclosing_scope_programs'] = len(eprogs)
+            run.extra['wrapper_vocabulary'] = wnames
+        finally:
+            ag_logging.warning = orig_warning
     finally:
         naming.Namer.new_symbol = orig_new
         convrun.cleanup()
@@ -351,7 +708,16 @@ def check(run):
         run.violation('a name introduced by the converter coincides with a name visible to the user function: ' + what,
                       {'kind': 'visible_names', 'program': src, 'closure': clos, 'roots': roots,
                        'how': 'the program is function f0 of a module that defines the globals named in roots (see replay())'})
-    failures = failures + vis_failures
+    for what, role, spec, t, clos, gnames, dv, src in sorted(enc_failures, key=lambda e: (len(e[7]), e[7])):
+        key = 'enclosing:' + re.sub(r"\d+|'\w+'", 'N', what)[:60]
+        if key in seen:
+            continue
+        seen.add(key)
+        run.violation('a name of the generated wrapper scopes captures / clashes with a user name (%s): %s' % (role, what),
+                      {'kind': 'enclosing_scopes', 'role': role, 'name': spec, 'template': t, 'closure': clos, 'globals': gnames,
+                       'entity_prefix': wprefix, 'decisions': dv, 'program': src,
+                       'how': 'function f0 of a module that defines each name of `globals` as a function (see replay())'})
+    failures = failures + vis_failures + enc_failures
     if not failures and (not tie_ok or corr_bad):
         run.violation('tie between the Namer model and the code broke: ' + (tie_msg or corr_bad),
                       {'broken': tie_msg or corr_bad, 'searched': 'vocabulary programs: no failing input'}, found_input=False)
@@ -363,6 +729,8 @@ def replay(path):
     import json
     doc = json.load(open(path))
     rp = doc.get('replay', {})
+    if rp.get('kind') == 'enclosing_scopes':
+        return replay_enclosing(rp)
     if rp.get('kind') != 'visible_names':
         return c01.replay(path)
     from malt.pyct import naming
@@ -386,4 +754,41 @@ def replay(path):
         return 1 if what else 0
     finally:
         naming.Namer.new_symbol = orig_new
+        convrun.cleanup()
+
+
+def replay_enclosing(rp):
+    from malt.pyct import naming
+    from malt.utils import ag_logging
+    handed, requests, warned = [], [], []
+    orig_new = naming.Namer.new_symbol
+    orig_warning = ag_logging.warning
+
+    def spy(self, name_root, reserved_locals):
+        r = orig_new(self, name_root, reserved_locals)
+        handed.append((r, None))
+        requests.append((name_root, not reserved_locals, r))
+        return r
+    naming.Namer.new_symbol = spy
+    ag_logging.warning = lambda msg, *a, **k: warned.append((msg % a) if a else str(msg))
+    try:
+        src, n = enc_source(rp['template'], rp['name'], 0, rp.get('closure'), rp.get('entity_prefix', ''))
+        gnames = [n] if rp.get('globals') else []
+        prelude = enc_prelude(gnames) if gnames else c01.PRELUDE
+        mod = convrun.load_module([src], prelude)
+        initial = dict((x, getattr(mod, x)) for x in gnames)
+        tree = ast.parse(src)
+        idents = set(x.id for x in ast.walk(tree) if isinstance(x, ast.Name)) | \
+            set(a.arg for x in ast.walk(tree) if isinstance(x, ast.arguments) for a in x.args)
+        print('# role of the name %r: %s' % (n, rp.get('role')))
+        if gnames:
+            print(global_def(n, 0) + '\n' + rd_helper(n))
+        print(src.replace('def f(', 'def f0(', 1))
+        vectors = [rp['decisions']] if rp.get('decisions') is not None else c01.VECTORS[:5]
+        r = enc_judge(mod, mod.f0, src, idents, handed, requests, warned, vectors, initial)
+        print(r[0] if r else 'conversion succeeded, original and converted agree, no enclosing scope binds a user name')
+        return 1 if r else 0
+    finally:
+        naming.Namer.new_symbol = orig_new
+        ag_logging.warning = orig_warning
         convrun.cleanup()
